@@ -12,7 +12,8 @@ Monitor shape: history + executable model (differential) + invariant + reference
                  Exceptions are observations compared by type (both sides raising the same type = equal, counted as
                  skipped: the statement does not say the accessor must work).
   invariant    : icontract.invariant on the three pure-Python classes (applied in memory from the harness): the
-                 reported range covers every pixel / filter; (max-min)/spectral_bins <= narrowest pixel /
+                 reported range covers every pixel / filter (filters: the TRUE support = min / max of the table the
+                 filter was built from, registered by the harness, not the filter's self-reported attributes); (max-min)/spectral_bins <= narrowest pixel /
                  min_bins_per_pixel (narrowest window / min_bins_per_window).  Evaluated around every public call.
   calibration  : calibrate(Spectrum) value * pixel width against the exact integral of the piecewise-linear
                  interpolant through the bin centres with nearest extrapolation (Raysect's documented
@@ -32,7 +33,10 @@ RULE = ("random instruments x random public-setter histories (1..15 ops: valid a
         "increments, quadratic dispersion, explicit; 2..600 edges; disjoint / adjacent / overlapping / nested), "
         "survey-style layouts (2..5 wide quadratic-dispersion channels), CzernyTurnerSpectrometer over the parameter "
         "domain where resolution() is real and positive for every intermediate state, Polychromator with 1..8 "
-        "trapezoidal / tabulated filters; final calibrate() of source spectra with 1..5000 bins covering the "
+        "trapezoidal / tabulated filters (tables ascending / descending / shuffled, irregular duplicate-free spacing, "
+        "list / tuple / ndarray, int / float dtype); every array-valued input (pixel edges, accommodated_spectra, "
+        "filters) is also given as list / tuple / ndarray / int dtype, reversed pixel arrays as rejected values; "
+        "final calibrate() of source spectra with 1..5000 bins covering the "
         "instrument exactly / loosely / with bin edges aligned to pixel edges.  A case is non-trivial when at least "
         "one setter was accepted and the final differential comparison ran, or at least one pixel was judged by the "
         "calibration oracle (distinct = distinct expanded case descriptors)")
@@ -50,8 +54,8 @@ ASSUMPTIONS = [
     "handed to a setter is outside the quantifier 'setter sequences')",
     "an accessor raising the same exception type on the mutated and the fresh instrument counts as equal (skipped and "
     "counted), e.g. CzernyTurnerSpectrometer.pipeline_classes / create_pipelines (AttributeError on both)",
-    "for Polychromator the bin-width bound is narrowest filter window / min_bins_per_window; 'covers every filter' is "
-    "judged by the filters' public min_wavelength / max_wavelength",
+    "for Polychromator the bin-width bound is narrowest filter window / min_bins_per_window; a filter's support and "
+    "window are the min / max of the wavelength table it was built from (trapezoid: centre -/+ window/2)",
     "the spectrum's integral over a pixel is Raysect's documented one: piecewise-linear through the bin centres, "
     "nearest-neighbour extrapolation in the two outer half bins",
     "bin-width bound is judged with relative slack 1e-12 (one rounding of the quotient inside ceil)",
@@ -59,7 +63,7 @@ ASSUMPTIONS = [
 QUICK = dict(cases=900, workers=2, timecap=45)
 THOROUGH = dict(cases=40000, workers=16, timecap=420)
 REQUIRED = {"diff_final": 600, "diff_shadow": 3000, "diff_read": 700, "inv_range": 12000, "inv_binwidth": 12000,
-            "calib": 20000, "set_accepted": 350, "set_rejected": 40}
+            "calib": 20000, "set_accepted": 350, "set_rejected": 40, "pixels_echo": 60}
 
 _S = {"in_monitor": False, "memo": None}
 
@@ -78,6 +82,7 @@ class InvariantBroken(Exception):
         self.cls_name = type(inst).__name__
         self.where = _S.get("where") or "construction"
         self.detail = dict(_S.get("last_view_detail") or {})
+        self.mech = self.detail.get("mechanism")
 
 
 # ----------------------------------------------------------------------------------------------
@@ -120,9 +125,24 @@ def _view(inst):
             else:
                 fl = list(c.filters)
                 if fl:
-                    view = dict(lo=lo, hi=hi, bins=bins, starts=[float(f.min_wavelength) for f in fl],
-                                ends=[float(f.max_wavelength) for f in fl],
-                                narrowest=float(min(f.window for f in fl)), per=c.min_bins_per_window)
+                    # TRUE support of every filter: min / max of the table values it was built from (registered by
+                    # the harness when the filter was created), not the attributes the filter reports about itself
+                    truth = _S.get("truth") or {}
+                    starts, ends, mech = [], [], None
+                    for f in fl:
+                        t = truth.get(id(f))
+                        if t is not None and t[0] is f:
+                            a, b, order = t[1], t[2], t[3]
+                            if float(f.min_wavelength) != a or float(f.max_wavelength) != b or float(f.window) != b - a:
+                                m = "unsorted-filter-table" if order in ("descending", "shuffled") else \
+                                    "filter-attributes-differ-from-table"
+                                mech = mech if mech == "unsorted-filter-table" else m
+                        else:
+                            a, b = float(f.min_wavelength), float(f.max_wavelength)
+                        starts.append(a)
+                        ends.append(b)
+                    view = dict(lo=lo, hi=hi, bins=bins, starts=starts, ends=ends, mech=mech,
+                                narrowest=float(min(b - a for a, b in zip(starts, ends))), per=c.min_bins_per_window)
             if view is not None and not (math.isfinite(lo) and math.isfinite(hi) and view["narrowest"] > 0):
                 view = None
         except InvariantBroken:
@@ -157,7 +177,7 @@ def _inv_range_covers(self):
         _S["counts"]["inv_range"] += 1
     ok = all(view["lo"] <= s for s in view["starts"]) and all(e <= view["hi"] for e in view["ends"])
     if not ok:
-        _S["last_view_detail"] = dict(min_wavelength=view["lo"], max_wavelength=view["hi"],
+        _S["last_view_detail"] = dict(min_wavelength=view["lo"], max_wavelength=view["hi"], mechanism=view.get("mech"),
                                       lowest_item_start=min(view["starts"]), highest_item_end=max(view["ends"]))
     return ok
 
@@ -188,6 +208,7 @@ def _inv_bin_width(self):
                 _S["margins"]["inv_binwidth"] = r
     if not ok:
         _S["last_view_detail"] = dict(spectral_bins=repr(bins), bin_width=width, bound=bound, narrowest=view["narrowest"],
+                                      mechanism=view.get("mech"),
                                       per=view["per"], min_wavelength=view["lo"], max_wavelength=view["hi"])
     return ok
 
@@ -294,11 +315,27 @@ def _make_filter(spec):
         else:
             args.append(None)
         return _S["TrapezoidalFilter"](*args, name=spec["name"])
-    return _S["PolychromatorFilter"](spec["wavelengths"], spec["samples"], normalise=spec.get("normalise", False),
-                                     name=spec["name"])
+    wl, sm = spec["wavelengths"], spec["samples"]
+    cont = spec.get("container", "list")
+    if cont == "ndarray":
+        wl = np.array(wl, dtype=np.int64 if spec.get("dtype") == "int" else float)
+        sm = np.array(sm)
+    elif cont == "tuple":
+        wl, sm = tuple(wl), tuple(sm)
+    return _S["PolychromatorFilter"](wl, sm, normalise=spec.get("normalise", False), name=spec["name"])
 
 
-def _filters_value(idx, pool, as_tuple=False):
+def _filter_truth(spec):
+    """(lo, hi, order) of the table the filter is built from -- independent of the filter's own attributes."""
+    if spec["type"] == "trapezoid":
+        return float(spec["c"] - 0.5 * spec["window"]), float(spec["c"] + 0.5 * spec["window"]), "ascending"
+    w = np.array(spec["wavelengths"], dtype=float)
+    d = np.diff(w)
+    order = "ascending" if np.all(d > 0) else "descending" if np.all(d < 0) else "shuffled"
+    return float(w.min()), float(w.max()), order
+
+
+def _filters_value(idx, pool, as_tuple=False, form=None):
     out = []
     for i in idx:
         if i == "bad-str":
@@ -307,28 +344,60 @@ def _filters_value(idx, pool, as_tuple=False):
             out.append(_S["InterpolatedSF"]([400.0, 500.0, 600.0], [0.0, 1.0, 0.0]))
         else:
             out.append(pool[i])
-    return tuple(out) if as_tuple else out
+    if form == "ndarray":
+        arr = np.empty(len(out), dtype=object)
+        arr[:] = out
+        return arr
+    return tuple(out) if (as_tuple or form == "tuple") else out
 
 
-def build(kind, P, pool):
+def _wl2pix_value(recs, form):
+    """The accommodated pixel-edge arrays in the container / dtype form the case asks for."""
+    arrs = [expand_layout(l) for l in recs]
+    isint = [bool(np.all(a == np.round(a))) for a in arrs]
+    if form == "tuple":
+        return tuple(arrs)
+    if form == "tuple-of-lists":
+        return tuple([int(x) for x in a] if i else a.tolist() for a, i in zip(arrs, isint))
+    if form == "list-of-tuples":
+        return [tuple(a.tolist()) for a in arrs]
+    if form == "int-arrays":
+        return [a.astype(np.int64) if i else a for a, i in zip(arrs, isint)]
+    if form == "ndarray-2d" and len({a.size for a in arrs}) == 1:
+        return np.array(arrs, dtype=np.int64 if all(isint) else float)
+    if form == "reversed":
+        return [a[::-1].copy() for a in arrs]
+    return arrs
+
+
+def _acc_value(value, form):
+    if form == "list":
+        return [list(x) for x in value]
+    if form == "ndarray":
+        isint = all(float(a) == int(a) and isinstance(b, int) for a, b in value)
+        return np.array([[a, b] for a, b in value], dtype=np.int64 if isint else float)
+    return tuple((a, b) for a, b in value)
+
+
+def build(kind, P, pool, form=None):
     """Instrument constructed directly from the (modelled) parameters, positional order as documented."""
     prev = _S.get("where")
     _S["where"] = "construction"
     try:
-        return _build(kind, P, pool)
+        return _build(kind, P, pool, form)
     finally:
         _S["where"] = prev
 
 
-def _build(kind, P, pool):
+def _build(kind, P, pool, form=None):
     if kind in ("spectrometer", "survey"):
-        return _S["Spectrometer"]([expand_layout(l) for l in P["wavelength_to_pixel"]], P["min_bins_per_pixel"], P["name"])
+        return _S["Spectrometer"](_wl2pix_value(P["wavelength_to_pixel"], form), P["min_bins_per_pixel"], P["name"])
     if kind == "czerny":
-        acc = tuple((a, b) for a, b in P["accommodated_spectra"])
+        acc = _acc_value(P["accommodated_spectra"], form)
         return _S["CzernyTurnerSpectrometer"](P["diffraction_order"], P["grating"], P["focal_length"], P["pixel_spacing"],
                                               P["diffraction_angle"], acc, P["min_bins_per_pixel"], P["name"])
     if kind == "polychromator":
-        return _S["Polychromator"](_filters_value(P["filters"], pool), P["min_bins_per_window"], P["name"])
+        return _S["Polychromator"](_filters_value(P["filters"], pool, form=form), P["min_bins_per_window"], P["name"])
     raise ValueError("unknown kind %r" % kind)
 
 
@@ -336,17 +405,11 @@ def setter_value(kind, attr, value, pool, op):
     if attr == "wavelength_to_pixel":
         if op.get("raw") is not None:
             return op["raw"]
-        arrs = [expand_layout(l) for l in value]
-        form = op.get("form", "list")
-        if form == "tuple-of-lists":
-            return tuple(a.tolist() for a in arrs)
-        if form == "tuple":
-            return tuple(arrs)
-        return arrs
+        return _wl2pix_value(value, op.get("form", "list"))
     if attr == "accommodated_spectra":
-        return tuple((a, b) for a, b in value)
+        return _acc_value(value, op.get("form"))
     if attr == "filters":
-        return _filters_value(value, pool, as_tuple=op.get("form") == "tuple")
+        return _filters_value(value, pool, form=op.get("form"))
     return value
 
 
@@ -574,17 +637,13 @@ def _param_snapshot(inst, kind):
 
 
 def _snap_equal(a, b):
-    for k in a:
-        x, y = a[k], b[k]
-        if isinstance(x, list) and x and isinstance(x[0], np.ndarray):
-            if not (isinstance(y, list) and len(x) == len(y) and all(np.array_equal(p, q, equal_nan=True) for p, q in zip(x, y))):
-                return False
-        elif isinstance(x, float) or isinstance(y, float):
-            if not (x == y or (x != x and y != y)):
-                return False
-        elif x is not y and x != y:
-            return False
-    return True
+    def plain(v):
+        if isinstance(v, np.ndarray) and v.dtype == object:
+            return list(v)
+        if isinstance(v, np.floating):
+            return float(v)
+        return v
+    return all(a[k] is b[k] or _eq(plain(a[k]), plain(b[k])) for k in a)
 
 
 def run_case(case, ctx):
@@ -600,10 +659,12 @@ def run_case(case, ctx):
             what = {"range-covers": "the reported spectral range does not cover every pixel / filter",
                     "bin-width": "bin width (max-min)/spectral_bins exceeds narrowest pixel (window) / min_bins_per_pixel "
                                  "(min_bins_per_window), or spectral_bins is not a number >= 1"}[e.clause]
-            ctx.viol("invariant:%s:%s:after-%s" % (e.clause, e.cls_name, e.where), what, violated_after=e.where, **e.detail)
+            ctx.viol("invariant:%s:%s:%s" % (e.clause, e.cls_name, e.mech or ("after-" + e.where)), what,
+                     violated_after=e.where, **e.detail)
         finally:
             _S["memo"] = None
             _S["where"] = None
+            _S["truth"] = None
             _flush_counts(ctx)
 
 
@@ -612,8 +673,14 @@ def _run(case, ctx):
     ctx.cls(kind)
     obs_names = POLY_OBS if kind == "polychromator" else SPEC_OBS
     pool = [_make_filter(s) for s in case.get("filters_pool", [])]
+    _S["truth"] = {}
+    for f, spec in zip(pool, case.get("filters_pool", [])):
+        _S["truth"][id(f)] = (f,) + _filter_truth(spec)
+        ctx.cls("filter-table:%s" % (_S["truth"][id(f)][3] if spec["type"] == "tabulated" else "trapezoid"))
     P = copy.deepcopy(case["init"])
-    inst = build(kind, P, pool)
+    inst = build(kind, P, pool, form=case.get("init_form"))
+    if case.get("init_form"):
+        ctx.cls("input-form:" + case["init_form"])
     cname = type(inst).__name__
     last_set = "construction"
     accepted = 0
@@ -636,6 +703,8 @@ def _run(case, ctx):
             ctx.cls("set-on-%s-cache" % ("warm" if reads_since_set else "cold"))
             reads_since_set = 0
             value = setter_value(kind, attr, op["value"], pool, op)
+            if op.get("form"):
+                ctx.cls("input-form:" + op["form"])
             _S["where"] = ("rejected-set-" if op.get("invalid") else "set-") + attr
             if op.get("invalid"):
                 before = _param_snapshot(inst, kind)
@@ -682,6 +751,13 @@ def _run(case, ctx):
         ctx.nontrivial()
     if not good:
         return
+    if kind in ("spectrometer", "survey"):
+        # the pixels are the arrays handed in, whatever container / dtype / construction path they came through
+        got = observe(inst, "wavelength_to_pixel", pool)
+        want = [expand_layout(l) for l in P["wavelength_to_pixel"]]
+        ctx.check(got[0] == "ok" and _eq(got[1], want), "pixels:%s.wavelength_to_pixel:differs-from-input-arrays" % cname,
+                  "the instrument's pixel-edge arrays are not the (float) values of the arrays it was given",
+                  monitor="pixels_echo", reported=_brief(got))
     if kind != "polychromator" and case.get("spectrum") is not None:
         check_calibration(ctx, inst, cname, case["spectrum"], pool, "final")
 
@@ -720,6 +796,8 @@ def _gen_layout(rng, start, big):
     m = int(min(n, 12))
     inc = 10 ** rng.uniform(-2, 0.5, size=m - 1)
     edges = np.round(start + np.concatenate(([0.0], np.cumsum(inc))), 3)
+    if rng.random() < 0.5:
+        edges = np.round(start) + np.concatenate(([0], np.cumsum(rng.integers(1, 9, size=m - 1))))   # integer-valued
     edges = np.unique(edges)
     if edges.size < 2:
         edges = np.array([start, start + 1.0])
@@ -883,18 +961,35 @@ def _gen_filter_spec(rng, i):
     n = int(rng.integers(3, 13))
     c = rng.uniform(250, 1000)
     span = 10 ** rng.uniform(-0.3, 1.5)
-    wl = np.sort(c + span * (rng.random(n) - 0.5))
-    if np.any(np.diff(wl) <= 1e-6):
-        wl = c + span * np.linspace(-0.5, 0.5, n)
+    dtype = "int" if rng.random() < 0.3 else "float"
+    if dtype == "int":
+        half = max(int(np.ceil(span)), n)
+        wl = np.sort(rng.choice(np.arange(int(c) - half, int(c) + half + 1), size=n, replace=False)).astype(float)
+    else:
+        wl = np.sort(c + span * (rng.random(n) - 0.5))           # irregular spacing
+        if np.any(np.diff(wl) <= 1e-6):
+            wl = c + span * np.linspace(-0.5, 0.5, n) ** 3 * 4    # irregular but duplicate-free
     s = rng.random(n)
+    if dtype == "int" and rng.random() < 0.5:
+        s = rng.integers(0, 4, size=n).astype(float)
+        s[int(rng.integers(n))] = 1.0
     if rng.random() < 0.5:
         s[0] = 0.0
     if rng.random() < 0.5:
         s[-1] = 0.0
-    if rng.random() < 0.4:
-        perm = rng.permutation(n)
+    u = rng.random()
+    if u < 0.3:
+        wl, s = wl[::-1], s[::-1]                                # descending table
+    elif u < 0.65:
+        perm = rng.permutation(n)                                 # shuffled table
         wl, s = wl[perm], s[perm]
-    return {"type": "tabulated", "wavelengths": [float(x) for x in wl], "samples": [float(x) for x in s],
+    if dtype == "int":
+        wlv = [int(x) for x in wl]
+        sv = [int(x) for x in s] if np.all(s == np.round(s)) else [float(x) for x in s]
+    else:
+        wlv, sv = [float(x) for x in wl], [float(x) for x in s]
+    return {"type": "tabulated", "wavelengths": wlv, "samples": sv, "dtype": dtype,
+            "container": ["list", "tuple", "ndarray"][int(rng.integers(3))],
             "normalise": bool(rng.random() < 0.3), "name": ["tab %d" % i, "", "H-alpha"][int(rng.integers(3))]}
 
 
@@ -903,6 +998,10 @@ def _gen_filter_idx(rng, npool):
     if rng.random() < 0.15:
         return [int(i) for i in rng.integers(0, npool, size=k)]          # duplicates allowed
     return [int(i) for i in rng.permutation(npool)[:k]]
+
+
+WL2PIX_FORMS = ["list", "tuple", "tuple-of-lists", "list-of-tuples", "int-arrays", "ndarray-2d"]
+SEQ_FORMS = ["list", "tuple", "ndarray"]
 
 
 def _gen_reads(rng, obs_names):
@@ -924,6 +1023,7 @@ def gen_case(rng, tier):
         survey = kind == "survey"
         case["init"] = {"wavelength_to_pixel": _gen_wl2pix(rng, survey), "min_bins_per_pixel": _gen_bins_per(rng),
                         "name": _gen_name(rng)}
+        case["init_form"] = WL2PIX_FORMS[int(rng.integers(len(WL2PIX_FORMS)))]
         for _ in range(nops):
             v = rng.random()
             if v < 0.55:
@@ -933,14 +1033,17 @@ def gen_case(rng, tier):
                     ops.append({"op": "set", "attr": "min_bins_per_pixel",
                                 "value": _gen_bad_bins_per(rng) if bad else _gen_bins_per(rng), **({"invalid": "ValueError"} if bad else {})})
                 elif a < 0.75:
-                    if rng.random() < 0.12:
+                    if rng.random() < 0.06:
+                        ops.append({"op": "set", "attr": "wavelength_to_pixel", "value": _gen_wl2pix(rng, False),
+                                    "form": "reversed", "invalid": "ValueError"})
+                    elif rng.random() < 0.08:
                         raws = [[[400.0, 401.0, 401.0, 402.0]], [[500.0]], [[400.0, 399.0]], [[[1.0, 2.0], [3.0, 4.0]]],
                                 [[400.0, 401.0], [600.0, 599.0, 601.0]]]
                         ops.append({"op": "set", "attr": "wavelength_to_pixel", "value": None,
                                     "raw": raws[int(rng.integers(len(raws)))], "invalid": "ValueError"})
                     else:
                         ops.append({"op": "set", "attr": "wavelength_to_pixel", "value": _gen_wl2pix(rng, survey and rng.random() < 0.7),
-                                    "form": ["list", "tuple", "tuple-of-lists"][int(rng.integers(3))]})
+                                    "form": WL2PIX_FORMS[int(rng.integers(len(WL2PIX_FORMS)))]})
                 else:
                     ops.append({"op": "set", "attr": "name", "value": _gen_name(rng)})
             elif v < 0.9:
@@ -958,6 +1061,7 @@ def gen_case(rng, tier):
             P = {"diffraction_order": 1, "grating": 2e-3, "focal_length": 1e9, "pixel_spacing": 2e4, "diffraction_angle": 10.0,
                  "accommodated_spectra": [[400.0, 64], [500.0, 32]], "min_bins_per_pixel": 2, "name": "ct"}
         case["init"] = copy.deepcopy(P)
+        case["init_form"] = SEQ_FORMS[int(rng.integers(3))]
         for _ in range(nops):
             v = rng.random()
             if v < 0.6:
@@ -981,7 +1085,10 @@ def gen_case(rng, tier):
                     Q[attr] = val
                     if _ct_in_domain(Q):
                         P = Q
-                        ops.append({"op": "set", "attr": attr, "value": val})
+                        op = {"op": "set", "attr": attr, "value": val}
+                        if attr == "accommodated_spectra":
+                            op["form"] = SEQ_FORMS[int(rng.integers(3))]
+                        ops.append(op)
                         break
             elif v < 0.9:
                 ops.append(_gen_reads(rng, obs))
@@ -993,6 +1100,7 @@ def gen_case(rng, tier):
         npool = int(rng.integers(2, 11))
         case["filters_pool"] = [_gen_filter_spec(rng, i) for i in range(npool)]
         case["init"] = {"filters": _gen_filter_idx(rng, npool), "min_bins_per_window": _gen_bins_per(rng), "name": _gen_name(rng)}
+        case["init_form"] = SEQ_FORMS[int(rng.integers(3))]
         for _ in range(nops):
             v = rng.random()
             if v < 0.62:
@@ -1004,7 +1112,7 @@ def gen_case(rng, tier):
                         ops.append({"op": "set", "attr": "filters", "value": idx, "invalid": "TypeError"})
                     else:
                         ops.append({"op": "set", "attr": "filters", "value": _gen_filter_idx(rng, npool),
-                                    "form": ["list", "tuple"][int(rng.integers(2))]})
+                                    "form": SEQ_FORMS[int(rng.integers(3))]})
                 elif a < 0.75:
                     bad = rng.random() < 0.15
                     ops.append({"op": "set", "attr": "min_bins_per_window",
@@ -1063,4 +1171,27 @@ def fixed_cases(tier):
                           {"op": "set", "attr": "filters", "value": [4]}, allp,
                           {"op": "set", "attr": "filters", "value": [1, "bad-str"], "invalid": "TypeError"},
                           {"op": "set", "attr": "filters", "value": [3, 0, 1, 2], "form": "tuple"}]})
+    pool2 = [{"type": "tabulated", "wavelengths": [700, 650, 640, 600], "samples": [0, 1, 1, 0], "dtype": "int",
+              "container": "tuple", "normalise": False, "name": "descending"},
+             {"type": "tabulated", "wavelengths": [500.5, 497.0, 503.25, 499.0, 501.0], "samples": [0.8, 0.0, 0.0, 0.6, 1.0],
+              "dtype": "float", "container": "ndarray", "normalise": True, "name": "shuffled"},
+             {"type": "tabulated", "wavelengths": [420.0, 421.5, 422.0, 426.0], "samples": [0.2, 1.0, 0.9, 0.1], "dtype": "float",
+              "container": "list", "normalise": False, "name": "ascending"},
+             {"type": "trapezoid", "c": 656.1, "window": 3., "flat_top": 1., "name": "H-alpha filter"}]
+    cases.append({"kind": "polychromator", "order_seed": 5, "filters_pool": pool2, "final_order": list(POLY_OBS),
+                  "init": {"filters": [1, 3], "min_bins_per_window": 10, "name": "unsorted tables"}, "init_form": "tuple",
+                  "ops": [allp, {"op": "set", "attr": "filters", "value": [0], "form": "ndarray"}, allp,
+                          {"op": "set", "attr": "filters", "value": [2, 0, 1], "form": "list"},
+                          {"op": "set", "attr": "min_bins_per_window", "value": 3}, allp]})
+    cases.append({"kind": "spectrometer", "order_seed": 6, "init_form": "ndarray-2d", "final_order": list(SPEC_OBS),
+                  "init": {"wavelength_to_pixel": [{"kind": "explicit", "edges": [400, 401, 403, 404]},
+                                                   {"kind": "explicit", "edges": [600, 602, 603, 607]}],
+                           "min_bins_per_pixel": 2, "name": "int edges"},
+                  "spectrum": {"bins": 37, "range": {"mode": "exact"}, "samples": {"kind": "random", "seed": 3, "amp": 1.0}},
+                  "ops": [allr, {"op": "set", "attr": "wavelength_to_pixel", "form": "int-arrays",
+                                 "value": [{"kind": "explicit", "edges": [500, 501, 505]}]},
+                          {"op": "set", "attr": "wavelength_to_pixel", "form": "reversed", "invalid": "ValueError",
+                           "value": [{"kind": "explicit", "edges": [300, 301, 305]}]},
+                          {"op": "set", "attr": "wavelength_to_pixel", "form": "tuple-of-lists",
+                           "value": [{"kind": "explicit", "edges": [500, 501, 505]}, {"kind": "uniform", "start": 450.0, "width": 0.5, "n": 9}]}]})
     return cases
